@@ -29,13 +29,19 @@ PROPERTY = "C08"
 LEVEL = "model_checking"
 BOUNDS = {
     "quick": (
-        "all 191 signatures over fixed arities 0..4 x variadic r in {none,0..4} (93 legal, 98 illegal) + 55 duplicate/double-variadic/empty "
-        "forms; every legal signature (ascending arity order) x 1,018 call shapes (direct 0..8 args; Var; compiled call sites; apply k=0..3 x "
-        "tail vector/list/cons/lazy of length 0..6 + infinite lazy tail; partial p=0..3 of all of these) x 3 argument variants; recur rebinding "
-        "over 21 signatures x every arity x 7-8 last-argument kinds x 1 and 3 iterations x 0/2 surplus call arguments; stack depth for 10 looping programs x "
-        "iteration counts {1,10,11,1000,100000}"
+        "all 191 signatures over fixed arities 0..4 x variadic r in {none,0..4} (93 legal, 98 illegal); illegal ones in both arity orders + 40 "
+        "duplicate-arity / two-variadic forms + 4 arity-less forms, each under fn*, fn and defn (712 rejections); every legal signature (ascending "
+        "arity order; compiled as fn, as defn, as call sites naming the Var and #'Var) x 1,018 call shapes (direct 0..8 args on the fn value and on "
+        "the Var; compiled call sites; apply k=0..3 x tail vector/list/cons/lazy of length 0..6 + infinite lazy tail; partial p=0..3 of all of these) "
+        "x 3 argument variants (ints / last a list / last nil) = 274,846 calls; recur rebinding over 21 signatures x every arity x 7-8 "
+        "last-argument kinds x 1 and 3 iterations x 0/2 surplus call arguments (604 cases); stack depth for 10 looping programs x iteration counts "
+        "{1,10,11,1000,100000}"
     ),
-    "thorough": "as quick, plus every legal signature also with its arities listed in descending order (variadic first), and iteration count 10^6 for every looping program",
+    "thorough": (
+        "as quick, plus: every legal signature also with its arities listed in descending order (variadic first; single arities in the bare "
+        "(fn [..] ..) form); a 5th tail kind (Python list) and a 4th argument variant (last a vector): 1,242 shapes x 4 variants = 896k calls; "
+        "iteration count 10^6 for every looping program"
+    ),
 }
 RULE = (
     "engine C: a case is (signature, arity order, call route, partial count p, leading args k, tail kind, tail length, argument variant); "
